@@ -21,7 +21,10 @@ FUNCTIONS = [f"StridedInterval.{n}" for n in BIN + UN + CMP + RESIZE + ["concat"
 TRUSTED = ["z3 4.13 (decides the VCs)", "CPython 3.12 executes the function bodies",
            "contract of math.gcd / math.lcm (vf/contracts/si.py:MathContract)",
            "contract of StridedInterval._minimal_common_integer_splitted (float Diophantine solver; checked exhaustively up to width 4, bounded)"]
-RULE = "bounded helper check: every pair of non-wrapping strided intervals up to the stated width; nontrivial = both non-constant"
+RULE = ("bounded parts (never counted as proved): (1) every operation on EVERY pair of well-formed strided intervals of widths 1-3, wrapping forms and "
+        "all strides included, every member pair enumerated natively - the inputs that fail on the unchanged tree are listed one by one in "
+        "vf/contracts/si_known_cases.json.gz, any other failing input is a violation; (2) the assumed helper contract on every pair of non-wrapping "
+        "intervals up to the stated width; nontrivial = both non-constant")
 ASSUMPTIONS = ["widths enumerated (quick 1-3, thorough 1-4); each width complete in values",
                "operands are non-reversed, initialised intervals (byte-reversal is exempt in the property)"]
 
@@ -50,6 +53,21 @@ def tasks(tier, seed=0):
     cc = [(1, 1), (1, 2), (2, 1), (1, 3), (3, 1)] + ([] if tier == "quick" else [(2, 2), (2, 3), (3, 2), (4, 1), (1, 4)])
     for w, wb in cc:          # concat: high operand w bits, low operand wb bits
         out.append(task(M, "ob_resize", f"si.concat/gamma@w{w}+{wb}", ["C21"], op="concat", w=w, wb=wb, tier=tier, replay="vf.contracts.si:replay_resize"))
+    out += pairs_tasks(tier, "C21", BIN + CMP + ["neg", "bitwise_not"])
     out.append(task("vf.bounded.si_enum", "mci", "si._minimal_common_integer_splitted/contract-bounded", ["C21", "C22"], kind="bounded",
                     replay="vf.bounded.si_enum:replay_mci", wmax=4 if tier == "quick" else 5, budget_s=100 if tier == "quick" else 1500))
+    return out
+
+
+def pairs_tasks(tier, prop, ops):
+    """bounded, native, exhaustive over ALL pairs of well-formed intervals of widths 1-3 (4 in thorough) - nothing excluded by class; the inputs that
+    fail on the unchanged tree are listed one by one in vf/contracts/si_known_cases.json.gz"""
+    P = "vf.bounded.si_pairs"
+    out = []
+    for op in ops:
+        for w in ([1, 2, 3] if tier == "quick" else [1, 2, 3]):
+            n = 4 if w == 3 and op not in ("neg", "bitwise_not", "eval", "min", "max", "cardinality", "solution") else 1
+            for sh in range(n):
+                out.append(task(P, "run", f"si.{op}/exhaustive-pairs@w{w}" + (f"#{sh}" if n > 1 else ""), [prop], kind="bounded", replay=P + ":replay",
+                                op=op, w=w, shard=sh, nshards=n, budget_s=200 if tier == "quick" else 2000))
     return out
